@@ -45,13 +45,22 @@ SelectAvoidsReserved(s, s2, w, sl) ==
           /\ k \in DOMAIN s2.w[w].outs /\ s2.w[w].outs[k].st = "Locked")
 
 \* is the effect of an earlier completed step of `kind` on `sl` still live?
-StillLive(s, w, kind, sl) ==
+\* (acct: the account the step addresses, "" = whichever; a delivery of the slate to ANOTHER account
+\* of the wallet is not a repetition - the duplicate check of receive_tx is per destination account,
+\* as the statement of C07 says)
+StillLive(s, w, kind, sl, acct) ==
   \E t \in DOMAIN s.w[w].txs :
      /\ s.w[w].txs[t].slate = sl
      /\ s.w[w].txs[t].ty = (IF kind = "receive" THEN "TxReceived" ELSE "TxSent")
+     /\ (acct # "" => s.w[w].txs[t].acct = acct)
 \* a repeated protocol step adds no log entry, output or reservation
+ReplayNoEffectA(s, s2, hv, w, kind, sl, res, acct) ==
+  (<<kind, sl>> \in hv.done[w] /\ StillLive(s, w, kind, sl, acct)) =>
+     \/ /\ DOMAIN s2.w[w].txs = DOMAIN s.w[w].txs
+        /\ DOMAIN s2.w[w].outs = DOMAIN s.w[w].outs
+        /\ LockedKeys(s2, w) = LockedKeys(s, w)
 ReplayNoEffect(s, s2, hv, w, kind, sl, res) ==
-  (<<kind, sl>> \in hv.done[w] /\ StillLive(s, w, kind, sl)) =>
+  (<<kind, sl>> \in hv.done[w] /\ StillLive(s, w, kind, sl, "")) =>
      \/ /\ DOMAIN s2.w[w].txs = DOMAIN s.w[w].txs
         /\ DOMAIN s2.w[w].outs = DOMAIN s.w[w].outs
         /\ LockedKeys(s2, w) = LockedKeys(s, w)
